@@ -228,11 +228,19 @@ class ECDSAKey(PKey):
         return m
 
     def verify_ssh_sig(self, data, msg):
-        if msg.get_text() != self.ecdsa_curve.key_format_identifier:
+        try:
+            if msg.get_text() != self.ecdsa_curve.key_format_identifier:
+                return False
+        except SSHException:
+            # algorithm name is not valid UTF-8
             return False
         sig = msg.get_binary()
         sigR, sigS = self._sigdecode(sig)
-        signature = encode_dss_signature(sigR, sigS)
+        try:
+            signature = encode_dss_signature(sigR, sigS)
+        except ValueError:
+            # e.g. negative integers
+            return False
 
         try:
             self.verifying_key.verify(
